@@ -653,6 +653,9 @@ func (x *Exec) inputFactsDepth(st *State, v Term, t types.Type, depth int) {
 	switch u := t.Underlying().(type) {
 	case *types.Map:
 		st.assume(mk(SBool, "<", v, st.alloc))
+	case *types.Slice:
+		a := x.sliceArr(v)
+		st.assume(and(mk(SBool, "<=", intLit(0), a), mk(SBool, "<", a, st.alloc)))
 	case *types.Pointer:
 		st.assume(mk(SBool, "<", v, st.alloc))
 		// references reachable from an input were allocated before the call
@@ -661,7 +664,7 @@ func (x *Exec) inputFactsDepth(st *State, v Term, t types.Type, depth int) {
 			for i := range si.Fields {
 				f := &si.Fields[i]
 				switch f.Type.Underlying().(type) {
-				case *types.Pointer, *types.Map, *types.Struct:
+				case *types.Pointer, *types.Map, *types.Struct, *types.Slice:
 					fv := sel(x.heapGet(st, fieldHeapName(si, f), arraySort(SInt, f.Sort)), v)
 					x.inputFactsDepth(st, fv, f.Type, depth+1)
 				}
